@@ -13,7 +13,7 @@ open PdshVerif.Dsh.Fan (Variant DPC)
 
 def projW : WP → Fan.W
   | .idle => .idle
-  | .started | .rcmdL | .ready => .started
+  | .started | .rcmdL | .skipL | .ready => .started
   | .connecting => .connecting
   | .connOk | .connFail | .updT | .updL | .reading | .closing | .resL | .flushed => .connected
   | .tearing => .tearing
@@ -59,7 +59,7 @@ structure NoCancel (s : St) : Prop where
   ts : ∀ j, tsAt s j ≠ .canceled
   own : s.own ≠ .s
 
-theorem proj_init (v f n b t0) : proj (init v f n b t0) = Fan.init v f n := by
+theorem proj_init (v g f n b t0) : proj (init v g f n b t0) = Fan.init v f n := by
   simp [proj, init, Fan.init, projOwn, projW]
 
 theorem skipRun_none : ∀ (l : List TS), (∀ k, l.getD k .new ≠ .canceled) → skipRun l = 0
@@ -74,12 +74,12 @@ theorem skip_none {s : St} (h : NoCancel s) (i : Nat) : skip s.ts i = i := by
   simp [skip, this]
 
 /-- the table behind the projection of a worker move -/
-theorem tbl_proj {a : WAct} {p q : WP} {c : Bool} (h : wNext a p c = some q) :
+theorem tbl_proj {g : Bool} {a : WAct} {p q : WP} {c : Bool} (h : wNext g a p c = some q) (hp : p ≠ .skipL) :
     match projWAct a with
     | none => projW q = projW p
     | some a' => projW p = a'.pre ∧ projW q = a'.post := by
-  cases c <;> cases a <;> (try (rename_i ok; cases ok)) <;> cases p <;> simp [wNext] at h <;> (try subst h) <;>
-    simp [projWAct, projW, Fan.WAct.pre, Fan.WAct.post]
+  cases g <;> cases c <;> cases a <;> (try (rename_i ok; cases ok)) <;> cases p <;> (try (exact absurd rfl hp)) <;>
+    simp [wNext] at h <;> (try subst h) <;> simp [projWAct, projW, Fan.WAct.pre, Fan.WAct.post]
 
 theorem nocancel_step {s s' : St} {l : Label} (ht : TInv s) (h : NoCancel s) (hl : l ≠ .s .lock)
     (hs : step s l = some s') : NoCancel s' := by
@@ -147,7 +147,12 @@ theorem proj_step {s s' : St} {l : Label} (hinv : Inv s) (hnc : NoCancel s) (hs 
   | w i a =>
     obtain ⟨p, q, ⟨hi, hpci, hn, hgT, hgO⟩, rfl⟩ := w_facts (step_w hs)
     have hget : s.ws[i]? = some p := getElem?_of_getD_lt hi hpci
-    have htbl := tbl_proj hn
+    have hnsk : p ≠ .skipL := by
+      intro hc
+      have := hinv.t.ok i
+      rw [hpci, hc] at this
+      exact hnc.ts i (by simpa [okTS] using this)
+    have htbl := tbl_proj hn hnsk
     have hmap : (s.ws.set i q).map projW = (s.ws.map projW).set i (projW q) := by simp [List.map_set]
     simp only [projL]
     cases ha : projWAct a with
@@ -273,8 +278,8 @@ theorem proj_step {s s' : St} {l : Label} (hinv : Inv s) (hnc : NoCancel s) (hs 
       simp [hdp]
 
 /-- a cancel-free run of the extended system projects to a run of the Fan LTS -/
-theorem proj_exec {v : Variant} {f n t0 : Nat} {b : Bool} {ls : List Label} {s : St}
-    (he : Exec (init v f n b t0) ls s) (hl : ∀ l ∈ ls, l ≠ .s .lock) :
+theorem proj_exec {v : Variant} {g : Bool} {f n t0 : Nat} {b : Bool} {ls : List Label} {s : St}
+    (he : Exec (init v g f n b t0) ls s) (hl : ∀ l ∈ ls, l ≠ .s .lock) :
     Fan.Exec (Fan.init v f n) (ls.filterMap projL) (proj s) ∧ NoCancel s := by
   induction he with
   | nil =>
@@ -283,7 +288,7 @@ theorem proj_exec {v : Variant} {f n t0 : Nat} {b : Bool} {ls : List Label} {s :
   | snoc he' hs ih =>
     rename_i ls0 s1 l s2
     obtain ⟨ihe, ihn⟩ := ih (fun l hl' => hl l (by simp [hl']))
-    have hinv := inv_exec (inv_init v f n b t0) he'
+    have hinv := inv_exec (inv_init v g f n b t0) he'
     have hnc := nocancel_step hinv.t ihn (hl l (by simp)) hs
     refine ⟨?_, hnc⟩
     have hp := proj_step hinv ihn hs
